@@ -1026,11 +1026,21 @@ def eval_c12_real(item):
     if not (is_task(G, root) and not Gr.has_cycle(G)):
         return out
     try:
+        # an earlier generation of the same job (same identifier, hence same directory) with other values of what is outside
+        # the signature (Meta parameter, tags): the files written for the submission that follows must replace it
+        G1 = json.loads(json.dumps(G))
+        G1["nodes"][root]["tags"] = {"x": 1, "old": "t"}
+        G1["nodes"][root].setdefault("args", {})["code"] = 7
+        B1 = Gr.build(G1)
+        Gr.submit(G1, B1, root, run_mode=RunMode.GENERATE_ONLY)
+        first_path = B1.tasks[root].__xpm__.job.path
         G2 = json.loads(json.dumps(G))
         G2["nodes"][root]["tags"] = {"x": 5, "name": "v"}
         B = Gr.build(G2)
         Gr.submit(G2, B, root, run_mode=RunMode.GENERATE_ONLY)
         job = B.tasks[root].__xpm__.job
+        if job.path != first_path:
+            out["problems"].append({"kind": "other-directory-for-neutral-change", "first": str(first_path), "second": str(job.path)})
         params = job.path / "params.json"
         if not params.is_file():
             out["problems"].append({"kind": "no-params-file"})
